@@ -3,6 +3,7 @@ package main
 import (
 	"fmt"
 	"os"
+	"strconv"
 	"time"
 )
 
@@ -14,6 +15,9 @@ func main() {
 	switch os.Args[1] {
 	case "translate":
 		os.Exit(cmdTranslate(os.Args[2], os.Args[3]))
+	case "gen":
+		seed, _ := strconv.ParseInt(os.Args[4], 10, 64)
+		os.Exit(cmdGen(os.Args[2], os.Args[3], seed))
 	case "run":
 		os.Exit(cmdRun(10 * time.Second))
 	default:
